@@ -295,3 +295,126 @@ pub fn twin_run(def: &CheckDef, fam: &Family, plan: &Plan, materialise: bool) ->
     v.digest ^= b.digest.rotate_left(17);
     Ok(v)
 }
+
+// ---------------------------------------------------------------------------------------------
+// Non-interference twin (C03, World B): the event streams of the genuine endpoints must be the
+// same with and without the attacker's datagrams.
+
+#[derive(Clone, PartialEq, Debug)]
+pub struct EvSnap {
+    t_ns: u64,
+    kind: u8,
+    len: usize,
+    hash: u64,
+}
+
+pub type EvBaseline = Rc<RefCell<BTreeMap<(usize, Option<usize>), Vec<EvSnap>>>>;
+
+pub struct EventTwin {
+    property: &'static str,
+    baseline: EvBaseline,
+    compare: bool,
+    pos: BTreeMap<(usize, Option<usize>), usize>,
+    compared: u64,
+    injected: u64,
+}
+
+impl EventTwin {
+    pub fn new(property: &'static str, baseline: EvBaseline, compare: bool) -> Self {
+        Self { property, baseline, compare, pos: BTreeMap::new(), compared: 0, injected: 0 }
+    }
+}
+
+fn genuine(plan: &Plan, ep: usize) -> bool {
+    matches!(plan.endpoints[ep].kind, EndpointKind::Client { .. } | EndpointKind::Server { .. })
+}
+
+impl Oracle for EventTwin {
+    fn on(&mut self, rec: &Rec, cx: &Cx) -> Option<Violation> {
+        match rec {
+            Rec::Delivered { injected: true, .. } => self.injected += 1,
+            Rec::Event { call, t_ns, ep, peer, peer_addr, ev, .. } => {
+                if !genuine(cx.plan, *ep) {
+                    return None;
+                }
+                // server events about the attacker's own addresses are not part of the claim
+                if let Some(a) = peer_addr {
+                    match cx.ep_of(a) {
+                        Some(p) if genuine(cx.plan, p) => (),
+                        _ => return None,
+                    }
+                }
+                let (kind, len, hash) = match ev {
+                    AppEvent::Connect => (1u8, 0, 0),
+                    AppEvent::Disconnect => (2, 0, 0),
+                    AppEvent::Error(k) => (10 + *k, 0, 0),
+                    AppEvent::Receive(p) => {
+                        let mut d = crate::rng::Digest::new();
+                        d.bytes(p);
+                        (3, p.len(), d.finish())
+                    }
+                };
+                let snap = EvSnap { t_ns: *t_ns, kind, len, hash };
+                let key = (*ep, *peer);
+                if !self.compare {
+                    self.baseline.borrow_mut().entry(key).or_default().push(snap);
+                    return None;
+                }
+                let base = self.baseline.borrow();
+                let k = *self.pos.get(&key).unwrap_or(&0);
+                self.pos.insert(key, k + 1);
+                self.compared += 1;
+                let expected = base.get(&key).and_then(|v| v.get(k));
+                if expected != Some(&snap) {
+                    let d = format!(
+                        "event #{} of endpoint {} (peer {:?}) differs: without the attacker's datagrams {:?}, with them {:?} (kind 1 = Connect, 2 = Disconnect, 3 = Receive, 10+ = Error)",
+                        k, ep, peer, expected, snap);
+                    return Some(Violation { property: self.property.into(), clause: "attack_changed_genuine_events".into(), detail: d, at_call: *call });
+                }
+            }
+            Rec::End { .. } => {
+                if self.compare {
+                    let base = self.baseline.borrow();
+                    for (key, v) in base.iter() {
+                        let got = *self.pos.get(key).unwrap_or(&0);
+                        if got < v.len() {
+                            let d = format!("endpoint {} (peer {:?}) saw {} events without the attacker's datagrams but only {} with them; first missing: {:?}", key.0, key.1, v.len(), got, v[got]);
+                            return Some(Violation { property: self.property.into(), clause: "attack_suppressed_genuine_events".into(), detail: d, at_call: 0 });
+                        }
+                    }
+                }
+            }
+            _ => (),
+        }
+        None
+    }
+
+    fn reach(&self, out: &mut BTreeMap<String, u64>) {
+        if self.compare {
+            let mut a = |k: &str, v: u64| *out.entry(k.to_string()).or_insert(0) += v;
+            a("genuine_events_compared_with_attack_free_twin", self.compared);
+            a("attacker_datagrams_delivered", self.injected);
+        }
+    }
+
+    fn nontrivial(&self) -> bool {
+        !self.compare || (self.compared >= 3 && self.injected >= 3)
+    }
+}
+
+pub fn twin_events_run(def: &CheckDef, fam: &Family, plan: &Plan, materialise: bool) -> Result<RunVerdict, String> {
+    let baseline: EvBaseline = Rc::new(RefCell::new(BTreeMap::new()));
+    let mut base_plan = plan.clone();
+    base_plan.timeline.retain(|t| !matches!(t.op, Op::Inject { twin: true, .. }));
+    base_plan.adversary = String::new();
+    let base_fam = Family { adversary: None, custom: None, ..fam.clone() };
+    let b = run_plan_with(def, &base_fam, &base_plan, false, vec![Box::new(EventTwin::new(def.property, baseline.clone(), false))])?;
+    if b.violation.is_some() || b.aborted_by_panic.is_some() {
+        return Ok(b);
+    }
+    let twin_fam = Family { custom: None, ..fam.clone() };
+    let oracles: Vec<Box<dyn Oracle>> = vec![Box::new(EventTwin::new(def.property, baseline.clone(), true)), Box::new(StateCoverage::new())];
+    let mut v = run_plan_with(def, &twin_fam, plan, materialise, oracles)?;
+    v.digest ^= b.digest.rotate_left(17);
+    Ok(v)
+}
